@@ -180,6 +180,12 @@ def check_entry_point(ctx, ci, m):
             if m.name == "run_batch_and_measure" or name == "run_batch_and_measure":
                 passed = sarg is not None and sample in d.atoms(sarg) | {getattr(sarg, "id", "")}
             ctx.check(bool(passed), R1, cons, f"delegates to {name} passing the sample count through (validated there)", f"delegates to {name} but passes {short(sarg)} instead of the caller's sample count: the caller's value escapes validation", where)
+            if m.name == "run_batch_and_measure" and name != "run_batch_and_measure":
+                # a batch handed to the single-circuit entry point: that one validates one number only, so the batch contract
+                # ("a sequence must have one entry per circuit") has to be checked before the hand-over
+                circ = ps[1]
+                lg = guard_nodes(cfg, lambda t: isinstance(t, ast.Compare) and isinstance(t.ops[0], ast.NotEq) and f"len({circ})" in (norm(t.left), norm(t.comparators[0])) and all(isinstance(x, ast.Call) and dotted(x.func) == "len" for x in (t.left, t.comparators[0])))
+                ctx.check(any(cfg.dominates(g, n) for g in lg), R1, cons + ":length-guard", "the length-mismatch guard dominates the hand-over to the single-circuit entry point", f"the batch is handed to {name} (which validates a single count) on a path the length check does not dominate: a sequence with the wrong number of entries is accepted (or fails with IndexError) instead of raising ValueError", where)
             continue
         # raw execution
         if m.name == "get_measurement_outcome_distribution" and none_tests:
